@@ -546,6 +546,16 @@ func (w *World) absJSON(rec interface {
 		o.Dpop = str("token_type") == "DPoP"
 		o.Res = resourcesOf(m["resources"])
 		o.Aud = jwtAud(at)
+		// the confirmation of the token just issued, as the provider's own TokenInfo helper reports it
+		// (public API, read-only): which key / certificate the token is bound to
+		if info, err := w.provider().TokenInfo(observerCtx(), at); err == nil && info.IsActive && info.Confirmation != nil {
+			if info.Confirmation.JWKThumbprint != "" {
+				o.Jkt = w.handleOf(info.Confirmation.JWKThumbprint, KSecret)
+			}
+			if info.Confirmation.ClientCertThumbprint != "" {
+				o.X5t = w.handleOf(info.Confirmation.ClientCertThumbprint, KSecret)
+			}
+		}
 		return o
 	case "par":
 		return Obs{Kind: "Par", H: w.handleOf(str("request_uri"), KParUri), Status: status, Raw: raw}
